@@ -10,7 +10,7 @@ func init() {
 
 // VerifHarness_C04: the requested cloud target never exceeds
 // min(max_nodes, cloud group maximum); clamped requests land on the bound.
-// shape: [nodes, pods, failure budget, class menu, prior scale-up scan (0/1)]
+// shape: [nodes, pods, failure budget, class menu, prior scale-up scan (0/1), launch-template mode (0/1)]
 func VerifHarness_C04() {
 	N, P, F, menu := verifShape(0), verifShape(1), verifShape(2), verifShape(3)
 	w := newWorld(F)
@@ -26,6 +26,11 @@ func VerifHarness_C04() {
 	verifAssume(minEff < maxEff)
 	verifAssume(asgMin < asgMax)
 	prior := verifShape(4) == 1
+	fleet := verifShape(5) == 1 // launch-template mode: capacity arrives by attaching instances on top of the real desired size
+	if fleet {
+		o.AWS.LaunchTemplateID, o.AWS.LaunchTemplateVersion = "lt-1", "1"
+		o.AWS.FleetInstanceReadyTimeout = "1500ms"
+	}
 	classes := [][]int{{tcNone, tcEsc}, {tcNone, tcEsc, tcForce}}[menu]
 	var g int
 	if !prior {
@@ -40,6 +45,9 @@ func VerifHarness_C04() {
 		g = w.addGroup(o, 0, int64(N)+4, 0)
 		w.symNodes("", g, N, []int{tcNone}, false, []int{0}, false)
 		w.symPods("", g, P, 1, false, int64(N)*w.cpuPerNode*80/100/int64(P), false) // 80%: a small scale-up, well below every ceiling
+	}
+	if fleet {
+		w.EC2.ReadyAfter = 1
 	}
 	asg := w.AS.Group(o.CloudProviderGroupName)
 	if !prior {
@@ -74,6 +82,12 @@ func VerifHarness_C04() {
 	bound := imin(maxEff, asgMax)
 	for k := mark; k < len(w.J.Calls); k++ {
 		e := w.J.Calls[k]
+		if e.Kind == "Attach" {
+			// fleet mode: the attached instances raise the real desired size by their number
+			verifReach("C04.fleet-attach")
+			verifAssert("C04.attach-within-bound", e.Prev+e.N <= bound)
+			continue
+		}
 		if e.Kind != "SetDesiredCapacity" {
 			continue
 		}
